@@ -270,6 +270,37 @@ pub fn dispatch(t: &[&str]) -> Option<Out> {
                 None => Out::Err("None".into()),
             },
         },
+        // s9_extract_none sign|enc|exch <id> : master key crafted as k = N - H1(id||hid), extraction must report failure
+        "s9_extract_none" => {
+            let hid = vh::hid();
+            let (hidb, kind) = match t[1] { "sign" => (hid[0], 0), "enc" => (hid[2], 1), _ => (hid[1], 2) };
+            let h1 = gm_sm9::key::verif_key_hooks::hash1(&unhex(t[2]), hidb);
+            let nn = u("b640000002a3a6f1d603ab4ff58ec74449f2934b18ea8beee56ee19cd69ecf25");
+            let k = mod_n_sub(&nn, &h1);
+            let ks = h(&k);
+            let none = match kind {
+                0 => sign_master(&ks).extract_key(&unhex(t[2])).is_none(),
+                1 => enc_master(&ks).extract_key(&unhex(t[2])).is_none(),
+                _ => enc_master(&ks).extract_exch_key(&unhex(t[2])).is_none(),
+            };
+            if none { Out::Err("None".into()) } else { Out::Ok("extracted".into()) }
+        }
+        // s9_bilin <a> <b> : e([b]P1, [a]P2) == e(P1, P2)^(ab mod N), e(P1,P2)^N == 1, e(P1,P2) != 1 evaluated inside the library
+        "s9_bilin" => {
+            let a = u(t[1]);
+            let b = u(t[2]);
+            let p1 = Point::g_mul(&[1, 0, 0, 0]);
+            let p2 = TwistPoint::g_mul(&[1, 0, 0, 0]);
+            let g = vh::pairing(&p2, &p1);
+            let lhs = vh::pairing(&TwistPoint::g_mul(&a), &Point::g_mul(&b));
+            let ab = mod_n_mul(&mod_n_add(&a, &[0; 4]), &mod_n_add(&b, &[0; 4]));
+            // pow asserts e <= N-1; ab mod N is in range
+            let rhs = vh::fp12_ops("pow", &g, &ab, &[Fp2::zero(); 3]);
+            let nm1 = u("b640000002a3a6f1d603ab4ff58ec74449f2934b18ea8beee56ee19cd69ecf24");
+            let gn = vh::fp12_ops("pow", &g, &nm1, &[Fp2::zero(); 3]).fp_mul(&g);
+            let one = Fp12::one();
+            Out::Ok(format!("bilinear={} order={} nondegenerate={}", lhs == rhs, gn == one, g != one))
+        }
         // s9_sign <ks> <id> <msg> <cands> -> h S(65 bytes) used=..
         "s9_sign" => {
             let key = match sign_master(t[1]).extract_key(&unhex(t[2])) { Some(k) => k, None => return Some(Out::Err("None".into())) };
